@@ -154,8 +154,8 @@ CHECKS["C03"] = {
 CHECKS["C11"] = {
     "tests": [T("TestC11Grid", 1, 1, qshards=4, tshards=4), T("TestC11", 120, 2500)],
     "level": "fault_enumeration",
-    "technique": "fault enumeration: cancellation of a replication request at every instrumented point (hooks in the replicator) x arrival count, enumerated for two fixed histories and drawn (rapid) for generated histories and request sequences; wedge oracle against the set reachable from the final heads",
-    "rule": "a victim replica (replication concurrency 1 or 2, set through a wrapping store constructor) receives 1-4 Sync requests over drawn subsets of honest entries, each with its own context that is cancelled at one of: never, before the call, the n-th arrival (n=1..4) at replicator.slot.before / slot.dequeued / fetch.done / entry.beforeDone / loadend.emit / load.registered, or while a parked block fetch is held by the harness; then an uncancelled Sync of the authors' final heads (optionally after a newer write). TestC11Grid enumerates every (point, n<=3) x concurrency {1,2} x {one head, three heads} for two fixed histories (192 cases); TestC11 draws histories (1-3 authors, up to 10 steps), request sequences and points. Oracle: the victim ends up holding exactly the entries reachable from the final heads, in model order (reported only when the system is at rest by hook counters and an entry is still missing, or when load calls stay open with nothing left to fetch). non-trivial = a cancellation hit a request with work queued or in flight; distinct = SHA-1 of the case JSON",
+    "technique": "fault enumeration: cancellation of a replication request at every instrumented point, and failure of its n-th block read, (hooks in the replicator) x arrival count, enumerated for two fixed histories and drawn (rapid) for generated histories and request sequences; wedge oracle against the set reachable from the final heads",
+    "rule": "a victim replica (replication concurrency 1 or 2, set through a wrapping store constructor) receives 1-4 Sync requests over drawn subsets of honest entries, each with its own context that is cancelled at one of: never, before the call, the n-th arrival (n=1..4) at replicator.slot.before / slot.dequeued / fetch.done / entry.beforeDone / loadend.emit / load.registered, while a parked block fetch is held by the harness, or - nothing being cancelled - with the n-th block read of the request failing with an error (failed-fetch); then an uncancelled Sync of the authors' final heads (optionally after a newer write). TestC11Grid enumerates every (point, n<=3) x concurrency {1,2} x {one head, three heads} for two fixed histories (216 cases); TestC11 draws histories (1-3 authors, up to 10 steps), request sequences and points. Oracle: the victim ends up holding exactly the entries reachable from the final heads, in model order (reported only when the system is at rest by hook counters and an entry is still missing, or when load calls stay open with nothing left to fetch). non-trivial = a cancellation hit a request with work queued or in flight; distinct = SHA-1 of the case JSON",
     "level_text": "Every instrumented cancellation point is enumerated for the fixed histories; generated histories sample the space. Cancellation between uninstrumented instructions is reached only by chance.",
     "level_note": "Trusted: x/sync semaphore, go-ipfs-log fetcher. 'Exactly as if the aborted request had never been made' is judged on the final entry set, order and view.",
     "design_ref": "5/C11",
